@@ -12,13 +12,14 @@ type JSStyle struct {
 	Semi   int // 0 explicit ';', 1 omitted before '}' and at the end, 2 also left to ASI at safe line breaks
 	WS     int // 0 compact, 1 single spaces, 2 random whitespace, comments and line breaks
 	Seed   int64
+	KwOcc  bool // list keyword uses of identifier-like words (async, get, of, let, static, …) among the identifier occurrences, with Bind -2
 	Bang   int // >0: about one separator in Bang is a bang comment (/*! … */ or //! …), which the parser keeps as Comment statements
 }
 
 // JSIdentOcc is one identifier token of the spelled program, in source order.
 type JSIdentOcc struct {
 	Name string
-	Bind int // >0 declared binding, 0 global, -1 not a binding occurrence (property name, label)
+	Bind int // >0 declared binding, 0 global, -1 not a binding occurrence (property name, label), -2 keyword use of an identifier-like word (only with JSStyle.KwOcc)
 	Decl bool
 	// Short: written as shorthand ({a} / {a = 1}): a printer that renames the binding must spell key and value
 	Short bool
@@ -37,8 +38,19 @@ type jsSpeller struct {
 	noIn bool
 }
 
-func (s *jsSpeller) t(text string)     { s.toks = append(s.toks, jsTok{s: text}) }
-func (s *jsSpeller) tNoLT(text string) { s.toks = append(s.toks, jsTok{s: text, noLT: true}) }
+// words the lexer classifies as identifiers although they are used as keywords (js.IsIdentifier)
+var jsIdentLikeKeywords = map[string]bool{"as": true, "async": true, "from": true, "get": true, "let": true, "meta": true, "of": true, "set": true, "static": true, "target": true}
+
+func (s *jsSpeller) kwOcc(text string) *JSIdentOcc {
+	if s.st.KwOcc && jsIdentLikeKeywords[text] {
+		return &JSIdentOcc{Name: text, Bind: -2}
+	}
+	return nil
+}
+func (s *jsSpeller) t(text string) { s.toks = append(s.toks, jsTok{s: text, id: s.kwOcc(text)}) }
+func (s *jsSpeller) tNoLT(text string) {
+	s.toks = append(s.toks, jsTok{s: text, noLT: true, id: s.kwOcc(text)})
+}
 func (s *jsSpeller) ident(n *JSNode, short bool) {
 	s.toks = append(s.toks, jsTok{s: n.S, id: &JSIdentOcc{Name: n.S, Bind: n.Bind, Decl: n.Decl, Short: short}})
 }
